@@ -9,6 +9,8 @@ package ignorefiles
 //@   sweep
 //@   ghost $line String = ""
 //@   replay ignoreLine: line=$line
+//@   invariant loop1 C19.ruleindex: currentRuleIndex == len(rules) - 1
+//@   invariant loop2 C19.ruleindex2: i <= currentRuleIndex && currentRuleIndex == len(rules) - 1
 
 //@ func (*rule).compile -> (err)
 //@   sweep
